@@ -385,6 +385,7 @@ def run(ctx):
 
 
 SELFTEST = [
+    ('jackknife-min-length-off-by-one', 'pyerrors/obs.py', '    length = len(jacks) - 1\n', "    length = len(jacks) - 1\n    if length <= 5:\n        raise ValueError('too short')\n", 'C13-D1'),
     ('bootstrap-table-transposed', 'pyerrors/obs.py', '    samples, length = random_numbers.shape\n', '    if random_numbers.shape[1] == len(boots) - 1:\n        random_numbers = random_numbers.T\n    samples, length = random_numbers.shape\n', 'C13-D2'),
     ('import-writes-through-view', 'pyerrors/obs.py', "    samples = jacks[1:] @ prj\n", "    samples = jacks[1:] @ prj\n    rest = np.asarray(jacks)[1:]\n    rest -= mean_shift if False else 0\n", None),
     ('jack-n-over-n-1', 'pyerrors/obs.py', "tmp_jacks[1:] = (n * mean - full_data) / (n - 1)", "tmp_jacks[1:] = (n * mean - full_data) / n", 'C13-D1'),
